@@ -7,64 +7,64 @@ VERIF = os.path.dirname(os.path.dirname(os.path.abspath(__file__)))
 BUILT = set(sys.argv[1:]) if len(sys.argv) > 1 else None
 
 T = {
- "C01": ("reference-model monitor: every go-to-definition answer (library entry point and real server) at every column of every usage token in generated workspaces is compared with an independent model of pytest's lookup",
+ "C01": ("reference-model monitor: every go-to-definition answer (library entry point and real server) at every column of every usage token in generated workspaces is compared with an independent model of pytest's lookup; repeated after every conftest tab was closed, and for a document opened with a text that differs from the scanned file",
          "reference-model runtime monitor (differential vs Python model of pytest lookup)",
          "the Python model of pytest's lookup (vlib/pymodel.py) is correct for the generated grammar; the generators reach the layouts that matter; CPython ast"),
- "C02": ("reference-model monitor over override chains: every column of every overriding def line, definition/references/hierarchy answers vs model with outward exclusion",
+ "C02": ("reference-model monitor over override chains: every column of every overriding def line, definition/references/hierarchy answers vs model with outward exclusion; per-class overrides in one file; repeated after the chain's files were closed and re-opened",
          "reference-model runtime monitor (override chains x cursor columns)",
          "model of outward resolution; chains up to length 4 over the generated placements"),
- "C03": ("reference-model monitor: the index records after analyze_file are compared field by field with an extraction done by CPython's ast/tokenize over generated sources",
+ "C03": ("reference-model monitor: the index records after analyze_file are compared field by field with an extraction done by CPython's ast/tokenize over generated sources (incl. same-file redefinitions and re-sent texts)",
          "reference-model runtime monitor (CPython ast extraction vs recorded index)",
          "CPython's parser as ground truth for the documented forms; sources outside rustpython's grammar are skipped, never judged"),
- "C04": ("consistency monitor: for every (definition, usage) pair of generated workspaces and edit histories, refs/goto equivalence, reverse-index mirror invariant at every quiescent point, and equality of code-lens / incoming-calls / CLI counts",
+ "C04": ("consistency monitor: for every (definition, usage) pair of generated workspaces and edit histories, refs/goto equivalence, reverse-index mirror invariant at every quiescent point, and equality of code-lens / incoming-calls / CLI counts; the two usage indexes under seeded schedules of concurrent analyses",
          "cross-path consistency monitor + invariant hook on the reverse usage index",
          "observations are the server's own answers; no model needed"),
- "C05": ("cross-feature monitor on the real server: identities decoded from definition/hover/implementation/prepareCallHierarchy/outgoingCalls/inlayHint/completion at the same position must coincide (unique docstring and return-type tokens per definition)",
+ "C05": ("cross-feature monitor on the real server: identities decoded from definition/hover/implementation/prepareCallHierarchy/outgoingCalls/inlayHint/completion at the same position must coincide (unique docstring and return-type tokens per definition); repeated after import-only edits and after closing every conftest; per-file view vs navigation after a concurrent edit under seeded schedules",
          "cross-feature runtime monitor with unique-value identities",
          "unique identity tokens make decoded identities unambiguous"),
- "C06": ("twin execution at every prefix of generated edit histories: history database vs fresh database on the latest valid contents (ordered raw maps + all queries), vs a cold database (raw maps as multisets), and the same through the real server",
+ "C06": ("twin execution at every prefix of generated edit histories: history database vs fresh database on the latest valid contents (ordered raw maps + all queries), vs a cold database (raw maps as multisets), and the same through the real server (incl. two versions sent back to back)",
          "twin-execution runtime monitor (history vs fresh index)",
          "same code on both sides, so common-mode defects are invisible; registration order is aligned by construction"),
- "C07": ("twin execution: long-lived database with interleaved queries, closes and cache eviction vs a cold twin that received the same analyses only; every query compared at every step",
+ "C07": ("twin execution: long-lived database with interleaved queries, closes and cache eviction vs a cold twin that received the same analyses only; every query compared at every step; open/query before the scan; queries concurrent with analyses under seeded schedules; every request kind on the real server before/after closing documents and opening 2000+ others",
          "twin-execution runtime monitor (warm vs cold caches)",
          "identical analysis sequences give identical registration order, so differences are caused by cached state"),
- "C08": ("twin execution across analysis orders, worker counts and processes: permutations of per-file analysis order on fresh databases, real scans with different RAYON_NUM_THREADS and delay injection, CLI runs; snapshots compared",
+ "C08": ("twin execution across analysis orders, worker counts and processes: permutations of per-file analysis order on fresh databases, real scans with different RAYON_NUM_THREADS and delay injection, CLI runs; snapshots compared; registration orders across the plugin / third-party tiers; workspace symbols of a 200+ fixture workspace across server processes; parallel registration of the same names under injected delays",
          "twin-execution runtime monitor (order / schedule / process permutations)",
          "sampling of permutations, not enumeration"),
- "C09": ("quiescent-state checker under a serialising scheduler inside the instrumented DashMap: seeded interleavings (uniform and PCT) of 2-3 concurrent analyses of files sharing names; final index must equal some sequential outcome and satisfy the mirror invariants; plus native stress with delay injection, TSan and Miri runs",
+ "C09": ("quiescent-state checker under a serialising scheduler inside the instrumented DashMap: seeded interleavings (uniform and PCT) of 2-3 concurrent analyses of files sharing names; final index must equal some sequential outcome and satisfy the mirror invariants; memoising queries overlapping analyses; native scan concurrent with an edit of another file; plus native stress with delay injection, TSan and Miri runs",
          "schedule-exploring runtime monitor (instrumented DashMap scheduler) + TSan/Miri",
          "hook granularity is one shard-lock operation; sampled schedules"),
- "C10": ("quiescent-state checker for {scan visits F from disk} || {didOpen/didChange(F)}: library level under the scheduler and both sequential orders, and the real server with the scan failpoint placing the notification before/after the visit",
+ "C10": ("quiescent-state checker for {scan visits F from disk} || {didOpen/didChange(F)}: library level under the scheduler and both sequential orders, and the real server with the scan failpoint placing the notification before/after the visit or between the scan's phases; roots named through symbolic links; open+change sent in one write",
          "schedule-controlled runtime monitor (scan failpoint + scheduler)",
          "failpoint and event log hooks are cfg-guarded and only delay, never alter, execution"),
- "C11": ("trace checker over hostile workloads: one response per request and a clean shutdown on the real server, catch_unwind around library entry points, CLI exit status, scan isolation; ASan/Miri/valgrind on reduced workloads",
+ "C11": ("trace checker over hostile workloads: one response per request and a clean shutdown on the real server, catch_unwind around library entry points, CLI exit status, scan isolation; legal-but-unusual protocol sequences; more files than the text cache holds; dev-build pass; ASan / valgrind on reduced workloads (thorough)",
          "runtime trace checker over hostile inputs + sanitizers",
          "hostile generators cover the byte-slicing sites; sanitizers exercise dependencies as driven by the repo"),
- "C12": ("lock monitor in the instrumented DashMap over all workloads: conflicting same-map re-entrancy (any shard), conflicting lock-order cycles, scheduler no-runnable-thread, classified watchdogs; cyclic inputs bounded by operation budgets",
+ "C12": ("lock monitor in the instrumented DashMap over all workloads: conflicting same-map re-entrancy (any shard), conflicting lock-order cycles, scheduler no-runnable-thread, classified watchdogs; cyclic inputs (incl. import cycles among plugin modules) bounded by watchdogs; requests during a gated scan and its tail; notification bursts followed by requests",
          "lock-order / re-entrancy runtime monitor + watchdogs on cyclic inputs",
          "std Mutex/tokio locks are covered by watchdogs only"),
- "C13": ("reference-model monitor: independent directory walk vs the files indexed by the real scan, relocation twins (same tree under differently named roots), broken-file isolation",
+ "C13": ("reference-model monitor: independent directory walk vs the files indexed by the real scan, relocation twins (same tree under differently named roots), broken-file isolation (incl. unreadable imported modules); non-canonical root spellings",
          "reference-model + relocation-twin runtime monitor",
          "exclude globs restricted to forms whose meaning is unambiguous"),
- "C14": ("reference-model monitor over generated import graphs and virtualenv layouts: availability, defining module and classification vs an import-closure model",
+ "C14": ("reference-model monitor over generated import graphs and virtualenv layouts: availability, defining module and classification vs an import-closure model; plugin chains with diamonds, package entry points, editable installs inside / outside / above the workspace; re-analysis and close/re-open after the scan",
          "reference-model runtime monitor (import closure + classification)",
          "model of Python import resolution for the generated forms"),
  "C15": ("reference-model monitor: every Location/Range in responses of the real server vs CPython's token table in UTF-16 columns, plus structural LSP rules",
          "reference-model runtime monitor (token positions in UTF-16)",
          "CPython tokenize as ground truth"),
- "C16": ("reference-model monitor: reported cycles and scope mismatches vs SCCs and scope order over a reference dependency graph; stability across orders",
+ "C16": ("reference-model monitor: reported cycles and scope mismatches vs SCCs and scope order over a reference dependency graph; stability across orders; published diagnostics on the real server; cycle report after a concurrent edit under seeded schedules",
          "reference-model runtime monitor (SCC / scope order) + order permutations",
          "model resolves dependencies per file as pytest would"),
- "C17": ("ground truth + round trip: expected undeclared-fixture warnings from the generator; quick-fix and completion edits applied to the text, re-parsed with CPython and fed back to the server",
+ "C17": ("ground truth + round trip: expected undeclared-fixture warnings from the generator; quick-fix and completion edits applied to the text, re-parsed with CPython and fed back to the server; same-length re-sends and back-to-back versions",
          "runtime monitor with generator ground truth and CPython round-trip of edits",
          "generator ground truth for the forms it emits"),
- "C18": ("ground truth per cursor line: completion context class and offered set vs generator ground truth and the visibility model",
+ "C18": ("ground truth per cursor line: completion context class and offered set vs generator ground truth and the visibility model; offered set after a concurrent edit under seeded schedules; plugin module opened before the scan's venv phase",
          "runtime monitor with generator ground truth (completion sets)",
          "generator knows the context class of every line it emits"),
- "C19": ("offline trace checker: last publishDiagnostics per document vs library-level collectors replaying the same analyses, cause-removal, configuration variants",
+ "C19": ("offline trace checker: last publishDiagnostics per document vs the collectors on a cold library index of the latest content; cause-removal, close/re-open, back-to-back versions, a document opened during the start-up scan, configuration variants",
          "offline trace checker over recorded LSP notifications",
-         "the library-level collectors are the same code; the glue/gating/ordering is what is checked"),
- "C20": ("cross-check of the CLI binary against find_references_for_definition and the model, exit status, JSON/text agreement, filter partition, byte equality across runs and worker counts",
+         "the collectors are the same code, asked on a cold index so that stale caches are not shared; glue, gating, ordering and cache validity are what is checked"),
+ "C20": ("cross-check of the CLI binary against find_references_for_definition and the model, exit status, JSON/text agreement, filter partition, byte equality across runs and worker counts; venv layouts with editable installs; non-UTF-8 paths; every definition reported once under parallel registration with injected delays",
          "cross-check runtime monitor (CLI vs library) + repeat runs",
          "the library reference sets are the server's answers"),
 }
